@@ -482,7 +482,37 @@ func JudgeBug(repo repository.RepoData, ref string) Verdict {
 			break
 		}
 	}
+	// a bug starts with its create operation (type 1) and has no other one: title, first comment
+	// and author of the bug come from it (entities/bug: "The very first Op should be a CreateOp",
+	// "only one Create op allowed")
+	n := 0
+	for _, p := range order {
+		for _, raw := range p.ops {
+			t := opType(raw)
+			if n == 0 && t != 1 {
+				j.U("the first operation is not a create operation")
+			}
+			if n > 0 && t == 1 {
+				j.U("a second create operation")
+			}
+			n++
+		}
+	}
 	return j.verdict()
+}
+
+// opType reads the type of a raw operation (0 when it has none; judgePack has refused those).
+func opType(raw []byte) int {
+	doc, err := parseJSON(raw)
+	if err != nil || doc.Kind != kObject {
+		return 0
+	}
+	t, st := member(doc, "type")
+	if st != 1 || t.Kind != kNumber {
+		return 0
+	}
+	v, _ := strconv.Atoi(string(t.Raw))
+	return v
 }
 
 var versionFields = map[string]int{"times": fIntMap, "unix_time": fInt, "name": fString, "email": fString, "login": fString,
